@@ -1,0 +1,25 @@
+//go:build verif
+
+// Contracts for property C13 (data codecs round-trip), package rel. Comments only.
+package rel
+
+// SetBuilder.Finish: the set of the values added (ghost `added`, 10_rel.spec). Trusted (frozen-backed).
+//@ func (*SetBuilder).Finish(b)
+//@   trusted
+//@   assigns fresh-only
+//@   returns (s, err)
+//@   ensures err == nil ==> s != nil
+
+// ---- server wire format (rel/json.go) -------------------------------------------------------------
+// jsonEscape: safety, plus the clause that a value the wire format has no place for is not silently
+// changed: string(x.s) drops a String's offset (input clause: cannot be a precondition, the values are
+// user data sent to observers).
+//@ func jsonEscape(value)
+//@   tags C13, C10
+//@   ensures[C13] stroffset: value is String ==> value.(String).offset == 0
+//@   ensures[C13] arroffset: value is Array ==> value.(Array).offset == 0
+
+// jsonUnescape: safety (every tree json.Unmarshal can produce must be handled without panic).
+//@ func jsonUnescape(i)
+//@   tags C13, C10
+//@   returns (v, err)
